@@ -108,7 +108,7 @@ def ghost_typing():
     for st in sts:
         guards = [e for e in st.events if e[0] == "loop-guard"]
         bfs = [e for e in st.events if e[0] == "call" and e[2].endswith("breadth_first_order")]
-        rem = [e for e in st.events if e[0] == "call" and e[2] == "samples_to_explore.remove"]
+        rem = [e for e in st.events if e[0] == "call" and isinstance(e[6], tuple) and e[6][0] == "attr" and e[6][2] == "remove"]
         if not (guards and bfs and rem):
             continue
         g = guards[0][2]
@@ -117,7 +117,7 @@ def ghost_typing():
             queue = g[2][0][3][0]
         start = bfs[0][3][1] if len(bfs[0][3]) > 1 else None
         reach = ("callres", bfs[0][1], bfs[0][2], bfs[0][3], bfs[0][4])
-        ok = (queue is not None and start == ("item", queue, fx.C(0)) and len(rem) == 1 and rem[0][3][0][:1] == ("iter",)
+        ok = (queue is not None and start == ("item", queue, fx.C(0)) and len(rem) == 1 and rem[0][6][1] == queue and rem[0][3][0][:1] == ("iter",)
               and rem[0][3][0][1] == reach and dict(bfs[0][4]).get("directed") == fx.C(False))
         det = {"guard": fx.show(g)[:120], "start": fx.show(start)[:80]}
         okloop = ok
